@@ -125,7 +125,7 @@ theorem outs_fill (S : SchemaView) :
         List.append_assoc]
       rw [e1] at r1
       exact List.Perm.append_left _ r1
-    · simp [fieldsOutputNames, outputDirs_names, r2]
+    · simp only [Acc.append_outs, List.map_append, r2]; exact outputDirs_names vid n pty dirs rest
   · intro path vid ty n params fds child rest st ed ps accIn st2 comp evs st3 post evPost st4 st5
       accR st' _ _ _ _ _ _ _ _ _ hnf
     simp [noFoldFields] at hnf
